@@ -93,6 +93,16 @@ def _opaque_table():
         "nested": ("o", lambda: EnsembleForecaster([("p", TransformedTargetForecaster([("log", LogTransformer()), ("f", NaiveForecaster())])),
                                                     ("m", MultiplexForecaster([("a", NaiveForecaster(strategy="mean")), ("b", PolynomialTrendForecaster())], selected_forecaster="a"))])),
     })
+    from sktime.transformations.series.impute import Imputer
+    OPAQUE.update({
+        # a cleaning step in front (update batches with missing values must reach the forecaster cleaned)
+        "pipeline_impute": ("o", lambda: TransformedTargetForecaster([("imp", Imputer(method="mean")), ("f", NaiveForecaster(strategy="mean"))])),
+        # composites three levels deep
+        "deep": ("o", lambda: EnsembleForecaster([
+            ("e", EnsembleForecaster([("p", TransformedTargetForecaster([("log", LogTransformer()), ("f", NaiveForecaster(strategy="mean"))])),
+                                      ("t", PolynomialTrendForecaster())])),
+            ("n", NaiveForecaster(strategy="drift"))])),
+    })
     try:
         from sktime.forecasting.exp_smoothing import ExponentialSmoothing
         from sktime.forecasting.theta import ThetaForecaster
